@@ -28,6 +28,7 @@ import pandas as pd  # noqa: E402
 
 warnings.filterwarnings("ignore")
 
+OBJECTS = {}  # Key -> text served by get_object
 PUTS = []  # every put_object seen by the fake, in order: dict(Bucket, Key, ContentType, size)
 
 
@@ -40,7 +41,14 @@ class FakeS3:
         return True
 
     def get_object(self, **kw):
-        raise RuntimeError("FakeS3.get_object: no object store in the verification sandbox: " + str(kw.get("Key")))
+        # an in-memory object store stands in for the transport (filled by a harness that needs stored files)
+        key = kw.get("Key")
+        if key in OBJECTS:
+            import datetime
+            import io
+
+            return {"Body": io.BytesIO(OBJECTS[key].encode("utf-8")), "LastModified": datetime.datetime(2099, 11, 3)}
+        raise RuntimeError("FakeS3.get_object: no such object in the verification sandbox: " + str(key))
 
 
 _real_boto3_client = boto3.client
@@ -156,8 +164,10 @@ def run_client(
     if states is None:
         states = sorted(set(pre.postal_code) | set(cur.postal_code))
     cfg = config(office, states, eid=eid)
+    # copy_feed=False hands the caller's own frame to the client (a client that writes into it is then observable on
+    # the caller's next poll)
     res = c.get_estimates(
-        cur.copy(),
+        cur.copy() if kw.pop("copy_feed", True) else cur,
         eid,
         office,
         list(estimands),
